@@ -71,6 +71,10 @@ def lock_case(withlog, prefix):
     return [5, int(withlog), list(prefix) + fair(2, 14)]
 
 
+def stress_case(seed, rounds):
+    return [9, int(seed), int(rounds)]
+
+
 def generate(rng, tier):
     thorough = tier != "quick"
     # ---- 1. await path: exhaustive for one awaiter (each future kind), and two awaiters
@@ -80,8 +84,8 @@ def generate(rng, tier):
     pairs = [(0, 0), (1, 1), (0, 1), (1, 2)] if not thorough else list(itertools.product((0, 1, 2), repeat=2))
     for kk in pairs:
         allsch = list(interleavings([3, 3, 5]))
-        if not thorough:
-            allsch = rng.sample(allsch, 900)
+        if not thorough and kk != (1, 1):
+            allsch = rng.sample(allsch, 3000)
         for sch in allsch:
             yield dict(case=await_case(list(kk), sch), kind="await-2")
     if thorough:
@@ -92,10 +96,10 @@ def generate(rng, tier):
     for sch in interleavings([4, 4]):
         yield dict(case=chan_case(1, [[5]], sch), kind="chan-fine-1")
     allsch = list(interleavings([6, 8]))
-    for sch in (allsch if thorough else rng.sample(allsch, 1200)):
+    for sch in allsch:
         yield dict(case=chan_case(1, [[5, 6]], sch), kind="chan-fine-2")
     allsch = list(interleavings([5, 3, 3]))
-    for sch in (allsch if thorough else rng.sample(allsch, 1200)):
+    for sch in (allsch if thorough else rng.sample(allsch, 3000)):
         yield dict(case=chan_case(0, [[5], [7]], sch), kind="chan-coarse-2x1")
     for _ in range(3000 if thorough else 500):
         progs = [[rng.randint(1, 9) for _ in range(rng.choice((1, 2)))] for _ in range(2)]
@@ -105,12 +109,12 @@ def generate(rng, tier):
     for sch in interleavings([3, 3]):
         yield dict(case=sig_case([[[0, 2]], [[1, 5]]], sch), kind="sig-writes")
     allsch = list(interleavings([6, 6]))
-    for sch in (allsch if thorough else rng.sample(allsch, 300)):
+    for sch in allsch:
         yield dict(case=sig_case([[[1, 1], [0, 7]], [[1, 5], [1, 3]]], sch), kind="sig-writes")
     for sch in interleavings([6, 3]):
         yield dict(case=sig_case([[[0, 2], [0, 3]], [[2]]], sch), kind="sig-pull-vs-write")
     allsch = list(interleavings([3, 6, 3]))
-    for sch in (allsch if thorough else rng.sample(allsch, 600)):
+    for sch in (allsch if thorough else rng.sample(allsch, 3000)):
         yield dict(case=sig_case([[[0, 2]], [[2], [2]], [[2]]], sch), kind="sig-pull-vs-pull")
     for _ in range(4000 if thorough else 500):
         n = rng.choice((2, 3))
@@ -127,12 +131,15 @@ def generate(rng, tier):
     for sch in interleavings([4, 3]):
         yield dict(case=glitch_case([2], sch), kind="glitch-1")
     allsch = list(interleavings([6, 6]))
-    for sch in (allsch if thorough else rng.sample(allsch, 300)):
+    for sch in allsch:
         yield dict(case=glitch_case([2, 3], sch), kind="glitch-2")
     # ---- 5. lock order of notify_subs vs an effect re-running on another thread
     for sch in interleavings([5, 4]):
         yield dict(case=lock_case(0, sch), kind="lock-order")
         yield dict(case=lock_case(1, sch), kind="lock-order-log", compare=False)
+    # ---- 9. seeded random stress with a watchdog (free-running threads, jitter at the yield points)
+    for _ in range(240 if thorough else 12):
+        yield dict(case=stress_case(rng.randint(1, 10 ** 9), 150 if thorough else 40), kind="stress", compare=False)
 
 
 def valid_case(item):
@@ -158,6 +165,8 @@ def valid_case(item):
                 c[2][-2 * FAIR_ROUNDS:] == fair(2) and len(set(c[1])) == len(c[1]) and 1 not in c[1]
         if op == 5:
             return len(c) == 3 and c[1] in (0, 1) and all(t in (0, 1) for t in c[2]) and c[2][-28:] == fair(2, 14)
+        if op == 9:
+            return len(c) == 3 and c[1] >= 1 and 1 <= c[2] <= 1000
     except Exception:
         return False
     return False
@@ -253,6 +262,17 @@ def oracle(item, impl):
         if not log or log[-1] != [5, 42]:
             return "the effect did not run after its sources changed (last saw %r)" % (log[-1:],)
         return None
+    if op == 9:
+        okr, lost, stale, hangs = impl
+        if hangs:
+            return "stress: %d round(s) left threads blocked forever (watchdog)" % hangs
+        if lost:
+            return "stress: %d round(s) with an awaiter never resumed / a writer never finished (watchdog)" % lost
+        if stale:
+            return "stress: %d round(s) in which the effect never saw the final values (watchdog)" % stale
+        if okr != c[2]:
+            return "stress: only %d of %d rounds completed" % (okr, c[2])
+        return None
     return None
 
 
@@ -275,6 +295,8 @@ def classify(item, impl, model):
 def nontrivial(item, model):
     """non-trivial = the enumerated prefix really interleaves (at least two switches between threads)"""
     c = item["case"]
+    if c[0] == 9:
+        return True
     sched = c[-1]
     n = {1: lambda: len(c[1]) + 1, 2: lambda: len(c[2]) + 1, 3: lambda: len(c[1]), 4: lambda: 2, 5: lambda: 2}[c[0]]()
     tail = n * (14 if c[0] == 5 else FAIR_ROUNDS)
@@ -283,12 +305,14 @@ def nontrivial(item, model):
     return switches >= 2
 
 
-NAMES = {1: "await path", 2: "effect channel", 3: "signal writes / memo pulls", 4: "mid-notification read",
+NAMES = {9: "random stress with watchdog", 1: "await path", 2: "effect channel", 3: "signal writes / memo pulls", 4: "mid-notification read",
          5: "lock order notify_subs vs effect re-run"}
 
 
 def describe(it):
     c = it["case"]
+    if c[0] == 9:
+        return "seeded stress: seed %d, %d rounds of 2 awaiters + completer + effect executor + writer running freely with jitter at the yield points" % (c[1], c[2])
     return "%s; case %s; the schedule lists, slot by slot, which thread runs to its next yield point" % (
         NAMES.get(c[0], "?"), C.sx(c)[:200])
 
@@ -307,7 +331,8 @@ RULE = ("every case = scenario + explicit schedule (list of thread ids, one slot
         "interleavings of the instrumented segments for: 1 awaiter x completer for each of ready()/into_future()/by_ref() (56 each), "
         "1 sender x receiver of the effect channel at the finest granularity (70), 2 writers (20), pull-vs-write (84), "
         "mid-notification read (35), notify_subs vs effect re-run lock order (126); seeded samples (quick) or the full sets (thorough) "
-        "for 2 awaiters (9240 each), 2 notifications (3003), 2 senders, pull-vs-pull, plus seeded random 3-4 thread cases. "
+        "for 2 awaiters (9240 each), 2 notifications (3003), 2 senders, pull-vs-pull, plus seeded random 3-4 thread cases; "
+        "plus a seeded free-running 5-thread stress with a watchdog (480 rounds quick / 36000 thorough, not compared with the model). "
         "Non-trivial = the enumerated prefix switches threads at least twice; distinct = distinct case hash.")
 TRUSTED = [
     "Coq 8.16.1 kernel; no axioms (every theorem of Properties_C19.v is 'Closed under the global context')",
